@@ -15,7 +15,7 @@ from hypothesis import strategies as st
 from vf import gen, prog, sem, oracles
 
 PROP = "C02"
-CASES = {"quick": 2000, "thorough": 30000}
+CASES = {"quick": 2000, "thorough": 80000}
 RULE = ("models and configurations as in C01 (vf/gen.py) plus pre-solve eval attempts, held objects, objects built "
         "after the solve and fresh leaves created after the solve. Non-trivial = finite solve with status optimal and "
         ">= 1 derived object (decomposition over >= 2 leaves) evaluated and compared; distinct by case JSON.")
